@@ -138,7 +138,7 @@ def main():
   rand = [rgen.gen(args.seed * 1000003 + i, 3, 9 if args.tier == "thorough" else 7, nsub=1 if i % 5 else 2) for i in range(nrand)]
   rand += [rgen.gen_fanout(args.seed * 13 + i) for i in range(10 if args.tier == "quick" else 200)]      # one weight, 9-12 readers in two groups
   rand += rgen.const_output_family()
-  rand += [rgen.gen_const_output(args.seed * 19 + i) for i in range(40 if args.tier == "quick" else 600)]   # a constant that is also a graph output
+  rand += [rgen.gen_const_output(args.seed * 19 + i) for i in range(40 if args.tier == "quick" else 150)]   # a constant that is also a graph output
   # the specification's machine is run on them too (PipelineFrom.tla): design invariants + a predicted terminal state each
   rf, rdumps = pipecheck.design_run_from("%s_random" % prop, rand, spec["inv"], timeout=7200)
   states += rf.distinct
